@@ -245,6 +245,7 @@ inline std::vector<HOp> build_alphabet(unsigned caps, bool extended) {
   assign(1, VX, lin({}, -1), "x:=-1");
   assign(1, VX, lin({}, 3), "x:=3");
   assign(0, VY, lin({}, 2), "y:=2");
+  assign(1, VY, lin({}, -1), "y:=-1");
   assign(1, VZ, lin({}, 1), "z:=1");
   assign(0, VX, lin({{1, VY}}), "x:=y");
   assign(0, VY, lin({{1, VX}}), "y:=x");
@@ -315,6 +316,7 @@ inline std::vector<HOp> build_alphabet(unsigned caps, bool extended) {
   assume(0, cst({{1, VX}, {1, VY}}, -1, C_LEQ), "assume(x+y<=1)");
   assume(1, cst({{1, VX}, {1, VY}}, 0, C_EQ), "assume(x+y==0)");
   assume(1, cst({{-1, VX}, {-1, VY}}, 1, C_LEQ), "assume(x+y>=1)");
+  assume(1, cst({{-1, VX}, {-1, VY}}, -1, C_LEQ), "assume(x+y>=-1)");
   assume(1, cst({{2, VX}, {-3, VY}}, -1, C_LEQ), "assume(2x-3y<=1)");
   assume(1, cst({{2, VX}, {-3, VY}}, 0, C_EQ), "assume(2x-3y==0)");
   assume(1, cst({{-1, VX}, {2, VY}}, 0, C_DISEQ), "assume(2y-x!=0)");
